@@ -4,7 +4,7 @@ From Coq Require Import ZArith Bool List Reals.
 Import ListNotations.
 From SU Require Import F32 F32Lemmas.
 From SU.Model Require Import PhaseAcc Lfo.
-From SU.Proofs Require Import LfoProofs SineProofs.
+From SU.Proofs Require Import LfoProofs SineProofs LfoFreqReadings.
 From SU.Model Require Import Utils.
 From Flocq Require Import Core.
 From SU.Proofs Require Import SharedProofs.
@@ -72,6 +72,31 @@ Theorem C12_sine_trace_freq : forall fs pre f post, fs_ok fs ->
     <= 2 * PI * 1.002 * (R32 f / R32 fs * (1 + / 8388608)) + 2 * / 16777216.
 Proof. exact C12_sine_trace_freq. Qed.
 
+(** the five readings are a function of the phase counter alone: a set_frequency between two ticks moves no waveform *)
+Theorem C12_set_frequency_keeps_readings : forall l f w,
+  lfo_get (lfo_step l (LSetFreq f)) w = lfo_get l w.
+Proof. exact set_frequency_keeps_readings. Qed.
+
+(** between consecutive ticks with a set_frequency in between: the bound holds with the step of the NEW increment *)
+Theorem C12_sine_continuous_across_set_frequency : forall l f,
+  (0 <= pa_acc l < 16777216)%Z ->
+  let l1 := lfo_step l (LSetFreq f) in
+  (0 <= pa_inc l1 <= 16777216)%Z ->
+  let l2 := lfo_step l1 LTick in
+  Rabs (R32 (lfo_get l2 Sine) - R32 (lfo_get l Sine))
+    <= 2 * PI * 1.002 * (IZR (pa_inc l1) / 16777216) + 2 * / 16777216.
+Proof. exact sine_continuous_across_set_frequency. Qed.
+
+(** the same for the triangle *)
+Theorem C12_triangle_continuous_across_set_frequency : forall l f,
+  (0 <= pa_acc l < 16777216)%Z ->
+  let l1 := lfo_step l (LSetFreq f) in
+  (0 <= pa_inc l1 <= 16777216)%Z ->
+  let l2 := lfo_step l1 LTick in
+  Rabs (R32 (lfo_get l2 Triangle) - R32 (lfo_get l Triangle))
+    <= 4 * (IZR (pa_inc l1) / 16777216).
+Proof. exact triangle_continuous_across_set_frequency. Qed.
+
 Print Assumptions C12_sine_continuous.
 Print Assumptions C12_triangle_continuous.
 Print Assumptions C12_wrap.
@@ -79,3 +104,6 @@ Print Assumptions C12_linear_interp_error.
 Print Assumptions C12_sine_trace.
 Print Assumptions C12_triangle_trace.
 Print Assumptions C12_sine_trace_freq.
+Print Assumptions C12_set_frequency_keeps_readings.
+Print Assumptions C12_sine_continuous_across_set_frequency.
+Print Assumptions C12_triangle_continuous_across_set_frequency.
